@@ -337,3 +337,13 @@ func truncate(s string, n int) string {
 	}
 	return s[:n] + "…"
 }
+
+// WriteFuzzViolation is used by native fuzz targets (which run in worker processes without a merged recorder):
+// it drops one JSON file per failing input into VERIF_OUT for the driver to pick up.
+func WriteFuzzViolation(property string, v Verdict, c interface{}) {
+	raw := toRaw(c)
+	sum := sha1.Sum(raw)
+	doc := map[string]interface{}{"property": property, "sig": v.Sig, "detail": v.Detail, "case": json.RawMessage(raw)}
+	b, _ := json.Marshal(doc)
+	_ = os.WriteFile(filepath.Join(OutDir(), "fuzzviol-"+hex.EncodeToString(sum[:6])+".json"), b, 0o644)
+}
